@@ -365,7 +365,9 @@ FLOAT_POOL = [
 ]
 
 F32_POOL = [0.0, -0.0, 1.0, -1.5, 0.1, 3.4028234663852886e38, 1.401298464324817e-45,
-            1.1754943508222875e-38, 16777216.0, 0.333333343267440796, 1e10, 1e-10]
+            1.1754943508222875e-38, 16777216.0, 0.333333343267440796, 1e10, 1e-10,
+            # the decades where ryu's f32 and f64 printers lay a number out differently, and their neighbours
+            9.999999974752427e-07, 1.5e-6, 9.99999993922529e-06, 9.999999747378752e-06, 9.99999982451e12, 1e13, 1.5e13, 1e14, 3e15, 9.99999986991104e15, 1.00000003318135e16]
 
 _PROFILES = {
     #            nulls  bytes  nskeys nonfinite f32    u64    rootdict
